@@ -38,9 +38,9 @@ def run_variant(args):
 
 
 def run_selftest(prop, root, seed=0, jobs=None):
-    mod = importlib.import_module(f"ocv.props.{prop.lower()}")
-    mutants = list(getattr(mod, "MUTANTS", []))
-    neutral = list(getattr(mod, "NEUTRAL", []))
+    from . import variants
+    mutants = list(variants.MUTANTS.get(prop, []))
+    neutral = list(variants.NEUTRAL.get(prop, []))
     tasks = []
     for m in mutants:
         name, module, old, new, expect = m[:5]
